@@ -66,6 +66,24 @@ def run_stepwise(builders):
     first = True
     for b in builders:
         step = b()
+        user = getattr(b, 'user', None)
+        if user is not None and not first:
+            # row / rows user callables are applied by the harness itself (independent of the
+            # library's row_processor / rows_processor helpers): "the link takes effect"
+            kind, fn = user
+            new_rows = []
+            for r in rows:
+                r = copy.deepcopy(r)
+                if kind == 'row':
+                    out = []
+                    for row in r:
+                        ret = fn(row)
+                        out.append(row if ret is None else ret)
+                    new_rows.append(out)
+                else:
+                    new_rows.append(list(fn(iter(r))))
+            rows = new_rows
+            continue
         if first:
             ds_in = None
         else:
@@ -98,6 +116,34 @@ def diff(a, b):
         dd = lab.rows_diff(x, y, limit=1)
         if dd:
             return 'resource #%d (%s): %s' % (i, da['resources'][i]['name'] if i < len(da['resources']) else '?', dd[0])
+    return None
+
+
+def observers_diff(e1, e2):
+    """What dumpers / stream / printer persisted must not depend on the evaluation strategy."""
+    import json
+    import os
+    for d1, d2 in zip(e1.dump_dirs, e2.dump_dirs):
+        try:
+            j1 = json.load(open(os.path.join(d1, 'datapackage.json')))
+            j2 = json.load(open(os.path.join(d2, 'datapackage.json')))
+        except Exception as e:
+            return 'dump descriptor unreadable: %s' % e
+        if j1 != j2:
+            for a, b in zip(j1.get('resources', []), j2.get('resources', [])):
+                if a != b:
+                    return 'dumped descriptor of %s: %r vs %r' % (a.get('name'), a, b)
+            return 'dumped descriptor differs: %r vs %r' % (j1, j2)
+        for r in j1.get('resources', []):
+            b1 = open(os.path.join(d1, r['path']), 'rb').read()
+            b2 = open(os.path.join(d2, r['path']), 'rb').read()
+            if b1 != b2:
+                return 'dumped file %s differs' % r['path']
+    for k in e1.streams:
+        if k in e2.streams and e1.streams[k].getvalue() != e2.streams[k].getvalue():
+            return 'stream %s text differs' % k
+    if e1.printed != e2.printed or e1.tables_printed != e2.tables_printed:
+        return 'printer output differs'
     return None
 
 
@@ -150,12 +196,19 @@ def run_case(case):
     prog = dsl.render(tables, specs)
     nsrc = len(tables)
 
+    envs = {}
+
     def builders(tag, canonical=False):
-        env = dsl.Env(tag)
+        env = envs[tag] = dsl.Env(tag)
         bs = [(lambda t=t: dsl.build_source(t)) for t in tables]
         for s in specs:
             s2 = dict(s, form='function') if (canonical and s['op'] == 'user') else s
-            bs.append(lambda s2=s2: dsl.OPS[s2['op']].build(s2, env))
+
+            def b(s2=s2):
+                return dsl.OPS[s2['op']].build(s2, env)
+            if canonical and s['op'] == 'user' and dsl.USER[s['fn']][0] in ('row', 'rows'):
+                b.user = dsl.USER[s['fn']]
+            bs.append(b)
         return bs
 
     def add(kind, msg, mech):
@@ -246,6 +299,11 @@ def run_case(case):
             if mech == 'lazy_vs_stepwise' and 'duplicate' in ops:
                 mech = 'lazy_vs_stepwise/after_duplicate'
             add('lazy_vs_stepwise', 'lazy != step-by-step: %s' % dd[:600], mech)
+        else:
+            od = observers_diff(envs['L'], envs['S'])
+            if od:
+                add('observer_content', 'an observer persisted different content in the lazy and the '
+                    'step-by-step run: %s' % od[:600], 'observer_content')
     except Exception as e:
         c = getattr(e, 'cause', e)
         add('stepwise_failed', 'step-by-step run failed although the lazy run succeeded: %s: %s'
